@@ -72,13 +72,14 @@ def run_call(c, variant):
         tens.append(x0)
     d0 = [base.tdig(t) for t in tens]
     start = None if c["start"] == NOSTART else c["start"]
+    alphabet = [["A", "C", "G", "T"], ["A", "C", "T", "G"], ["T", "G", "C", "A"]][(variant // 2) % 3]   # symbol k is alphabet[k]
     try:
         if op == "marginalize":
             mb = base.encode_batch(c["mo"], A, torch.float64)
             motif = mb
             if len(c["mo"]) == 1 and variant % 2:
-                motif = "".join("ACGT"[s] for s in c["mo"][0])
-            yb, ya = marginalize(model, x, motif, start=start, args=args, device="cpu", batch_size=c["bs"])
+                motif = "".join(alphabet[s] for s in c["mo"][0])
+            yb, ya = marginalize(model, x, motif, start=start, alphabet=alphabet, args=args, device="cpu", batch_size=c["bs"])
             b, a = outputs(yb, c, 1), outputs(ya, c, 1)
         elif op == "ablate":
             ev["shuf"] = [[base.decode(s) for s in row] for row in ersatz.shuffle(x, start=c["start"], end=c["end"], n=c["n"],
@@ -89,10 +90,10 @@ def run_call(c, variant):
         elif op == "space":
             motifs = [base.encode_batch(mb, A, torch.float64) for mb in c["mos"]]
             if variant % 2:
-                motifs = ["".join("ACGT"[s] for s in mb[0]) if len(mb) == 1 else base.encode_batch(mb, A, torch.float64)
+                motifs = ["".join(alphabet[s] for s in mb[0]) if len(mb) == 1 else base.encode_batch(mb, A, torch.float64)
                           for mb in c["mos"]]
             grid = c["grid"] if variant % 3 else torch.tensor(c["grid"], dtype=torch.int64).reshape(len(c["grid"]), -1)
-            yb, ya = space(model, x, motifs, grid, start=start, args=args, device="cpu", batch_size=c["bs"])
+            yb, ya = space(model, x, motifs, grid, start=start, alphabet=alphabet, args=args, device="cpu", batch_size=c["bs"])
             b, a = outputs(yb, c, 2), outputs(ya, c, 2)
         elif op == "marginalize_annotations":
             ann = torch.tensor(c["ann"], dtype=torch.int64)
@@ -121,6 +122,103 @@ def run_call(c, variant):
         ev["st"] = "err"; ev["kind"] = type(e).__name__; ev["msg"] = str(e)[:120]
     ev["same"] = [base.tdig(t) for t in tens] == d0
     return ev
+
+
+# ------------------------------------------------------------------ wrappers around other funcs (deep_lift_shap, saturation_mutagenesis)
+class IntNet(torch.nn.Module):
+    """exact-integer network; torch.nn.Tanh.forward is replaced by z*z in this worker so DeepLIFT multipliers are integers"""
+
+    def __init__(self, L):
+        super().__init__()
+        g = torch.Generator().manual_seed(21)
+        self.l1 = torch.nn.Linear(4 * L, 3).double()
+        self.act = torch.nn.Tanh()
+        self.l2 = torch.nn.Linear(3, 2).double()
+        with torch.no_grad():
+            for p in self.parameters():
+                p.copy_(torch.randint(-2, 3, p.shape, generator=g).double())
+
+    def forward(self, X, a=None):
+        y = self.l2(self.act(self.l1(X.flatten(1))))
+        return y if a is None else y + a.reshape(-1, 1)
+
+
+def digs(t):
+    """nested list of per-row digests of a tensor over its leading `lead` dims flattened to the first dim"""
+    return [base.tdig(t[i]) for i in range(t.shape[0])]
+
+
+def run_func_lane(seed, n_calls):
+    """A SEQUENCE of wrapper calls in one process with func = deep_lift_shap / saturation_mutagenesis and changing seeds;
+    each output index is compared with the direct call of func on the input the index denotes (a logged fact)."""
+    from tangermeme.deep_lift_shap import deep_lift_shap
+    from tangermeme.ism import saturation_mutagenesis
+    old = torch.nn.Tanh.forward
+    torch.nn.Tanh.forward = lambda self, z: z * z
+    rng = random.Random(seed)
+    evs = []
+    try:
+        for k in range(n_calls):
+            L = rng.randint(6, 9); n = rng.randint(1, 3)
+            x = torch.stack([base.encode([rng.randrange(4) for _ in range(L)], 4, torch.float64) for _ in range(n)])
+            model = IntNet(L)
+            args = (torch.tensor([float(rng.randint(-5, 5)) for _ in range(n)], dtype=torch.float64),) if rng.random() < 0.4 else None
+            rs = rng.randint(0, 1000)
+            which = rng.choice(["ablate_dls", "marginalize_dls", "space_dls", "ablate_ism", "marginalize_ism"])
+            ev = dict(op="func:" + which, got=[], fact=[], same=True, valid=True, seq=k, seed=seed)
+            d0 = base.tdig(x)
+            try:
+                if which == "ablate_dls":
+                    ns = rng.randint(1, 3); s0 = rng.randint(0, L - 3); e0 = rng.randint(s0 + 2, L)
+                    kw = dict(n_shuffles=2, device="cpu", batch_size=rng.choice([1, 3, 32]))
+                    if k % 2:       # keyword arguments reach func either through additional_func_kwargs or through **kwargs
+                        yb, ya = ablate(model, x, s0, e0, n=ns, args=args, random_state=rs, func=deep_lift_shap, additional_func_kwargs=dict(kw))
+                    else:
+                        yb, ya = ablate(model, x, s0, e0, n=ns, args=args, random_state=rs, func=deep_lift_shap, **kw)
+                    xp = ersatz.shuffle(x, start=s0, end=e0, n=ns, random_state=rs)
+                    an = None if args is None else tuple(a.repeat_interleave(ns, dim=0) for a in args)
+                    fb = deep_lift_shap(model, x, args=args, random_state=rs, **kw)
+                    fa = deep_lift_shap(model, xp.reshape(-1, 4, L), args=an, random_state=rs, **kw)
+                    ev["got"] = [digs(yb), digs(ya.reshape(-1, 4, L))]; ev["fact"] = [digs(fb), digs(fa)]
+                elif which in ("marginalize_dls", "marginalize_ism"):
+                    m = [rng.randrange(4) for _ in range(rng.randint(1, 3))]
+                    st = rng.randint(0, L - len(m))
+                    xs = ersatz.substitute(x, base.encode(m, 4, torch.float64).unsqueeze(0), start=st)
+                    if which == "marginalize_dls":
+                        kw = dict(n_shuffles=2, device="cpu", random_state=rs, batch_size=rng.choice([1, 3, 32]))
+                        yb, ya = marginalize(model, x, "".join("ACGT"[s] for s in m), start=st, args=args, func=deep_lift_shap, **kw)
+                        fb = deep_lift_shap(model, x, args=args, **kw); fa = deep_lift_shap(model, xs, args=args, **kw)
+                    else:
+                        kw = dict(device="cpu", batch_size=rng.choice([2, 5, 32]))
+                        yb, ya = marginalize(model, x, "".join("ACGT"[s] for s in m), start=st, args=args, func=saturation_mutagenesis, **kw)
+                        fb = saturation_mutagenesis(model, x, args=args, **kw); fa = saturation_mutagenesis(model, xs, args=args, **kw)
+                    ev["got"] = [digs(yb), digs(ya)]; ev["fact"] = [digs(fb), digs(fa)]
+                elif which == "space_dls":
+                    mo = ["ACGT"[rng.randrange(4)], "ACGT"[rng.randrange(4)]]
+                    grid = [[rng.randint(0, 2)] for _ in range(rng.randint(1, 3))]
+                    kw = dict(n_shuffles=2, device="cpu", random_state=rs)
+                    yb, ya = space(model, x, mo, grid, start=0, args=args, func=deep_lift_shap, **kw)
+                    fa = [deep_lift_shap(model, ersatz.multisubstitute(x, mo, g, start=0), args=args, **kw) for g in grid]
+                    fb = deep_lift_shap(model, x, args=args, **kw)
+                    ev["got"] = [digs(yb[:, 0]), [digs(ya[:, s]) for s in range(len(grid))]]
+                    ev["fact"] = [digs(fb), [digs(f) for f in fa]]
+                else:   # ablate_ism
+                    ns = rng.randint(1, 2); s0 = rng.randint(0, L - 3); e0 = rng.randint(s0 + 2, L)
+                    kw = dict(device="cpu", batch_size=rng.choice([3, 32]))
+                    yb, ya = ablate(model, x, s0, e0, n=ns, args=args, random_state=rs, func=saturation_mutagenesis, **kw)
+                    xp = ersatz.shuffle(x, start=s0, end=e0, n=ns, random_state=rs)
+                    an = None if args is None else tuple(a.repeat_interleave(ns, dim=0) for a in args)
+                    fb = saturation_mutagenesis(model, x, args=args, **kw)
+                    fa = saturation_mutagenesis(model, xp.reshape(-1, 4, L), args=an, **kw)
+                    ev["got"] = [digs(yb), digs(ya.reshape(-1, *ya.shape[2:]))]; ev["fact"] = [digs(fb), digs(fa)]
+                ev["st"] = "ok"
+            except Exception as e:
+                ev["st"] = "err"; ev["msg"] = "%s: %s" % (type(e).__name__, str(e)[:100])
+            ev["same"] = base.tdig(x) == d0
+            evs.append(ev)
+    finally:
+        torch.nn.Tanh.forward = old
+    return evs
 
 
 def gen_call(rng):
@@ -219,7 +317,9 @@ def handler(case):
         return out
     if mode == "m2":
         rng = random.Random(case["seed"])
-        return {"events": [run_call(gen_call(rng), rng.randrange(1000)) for _ in range(case["n"])]}
+        evs = [run_call(gen_call(rng), rng.randrange(1000)) for _ in range(case["n"])]
+        evs += run_func_lane(case["seed"], max(3, case["n"] // 6))
+        return {"events": evs}
     if mode == "ev":
         return {"ev": run_call(case["call"], case.get("variant", 0))}
 
